@@ -26,13 +26,13 @@ classify = rc.classify
 
 
 def impl_violation(run, case, impl):
-    return (case.startswith("conc") or case.startswith("exhaust")) and impl.startswith("VIOLATION")
+    return (case.startswith(("conc", "exhaust", "reuse"))) and impl.startswith("VIOLATION")
 
 
 def violates(run, case, impl, model):
     # budget / depth / error-vs-pointer differences are violations of the limits when the
     # implementation hands out more than the model (which is proved to respect them)
-    if case.startswith("conc") or case.startswith("exhaust"):
+    if case.startswith(("conc", "exhaust", "reuse")):
         return impl.startswith("VIOLATION")
     op, a, b = rc.first_diff(case, impl, model)
     if op is None:
